@@ -189,3 +189,20 @@ Theorem C16_hist_example :
   s_l2v (h_s acache ex_stA) = (2 :: 0 :: 1 :: 3 :: nil) /\ wf_b (h_s acache ex_stA) = true.
 Proof. exact (conj ex_runA (conj (proj1 (proj2 ex_stA_shape)) (proj1 ex_wfA))). Qed.
 Print Assumptions C16_hist_example.
+
+(* along a whole history: however many variables are added meanwhile (and whatever else is
+   called), an existing handle that is not overwritten denotes the function it denoted, and that
+   function reads only the variables that existed at the time *)
+Theorem C16_hist_handle_function_fixed :
+  forall (gt : ref -> ref -> bool) (C : Type) (cget : C -> N -> list ref -> option ref)
+         (cadd : C -> N -> list ref -> ref -> C), lossy cget cadd ->
+  forall cempty : C, (forall k a, cget cempty k a = None) ->
+  forall ops (st st' : hstate C), HInv C cget st -> hops_pre gt C cget cadd cempty st ops ->
+  hrun gt C cget cadd cempty st ops = Some st' ->
+  forall x e, (forall o, In o ops -> hdst o <> Some x) ->
+  ConfigApply.hget (s_handles (h_s C st)) x = Some e ->
+  ConfigApply.hget (s_handles (h_s C st')) x = Some e /\
+  forall a a', (forall v, v < Table.nlevels (h_s C st) -> a v = a' v) ->
+    bfun_of (h_s C st') (eref e) a = bfun_of (h_s C st) (eref e) a'.
+Proof. exact hist_handle_function_fixed. Qed.
+Print Assumptions C16_hist_handle_function_fixed.
